@@ -46,7 +46,10 @@ ASSUMPTIONS = [
     "dispatcher (plus the seeded timers); the row->constant mapping itself is exercised only by the scaling clause",
     "seaweed growth factors: the code hands a 120-entry table indexed by month; 'one value per simulated month' is "
     "read as: at least NMONTHS entries, the first NMONTHS finite and >= 0 (longer tables are counted, not alarmed)",
-    "initial stored food is a stock (one number); N zeros are accepted when stored food is switched off",
+    "initial stored food is a stock (one number); N zeros are accepted when stored food is switched off; its "
+    "reference is a difference of two large terms, so the 1e-12 tolerance is taken relative to the larger term",
+    "grass baseline unit: a monthly figure above 20 000 (the cap verify_country_data puts on the annual megatonnes) is "
+    "read as tons (the documented unit of the world constant), otherwise as megatonnes (the documented unit of the rows)",
     "methane SCP / cellulosic sugar: ramp tables are not documented outside the code -> structural + metamorphic clauses",
     "outdoor crops with greenhouses: either with or without the (1 - greenhouse fraction) factor (C09 decides that)",
     "seed share (92/3898), greenhouse yield model (mean monthly yield x relocation exponent x gain) and the "
@@ -214,9 +217,10 @@ def reference(ci, tci):
     ref["fish"] = pct / 100 * fish_month if ci["ADD_FISH"] else np.zeros(len(pct))
 
     # ---- grass (human-inedible feed): monthly baseline x ratio of the model year.
-    # documented units: country rows carry megatonnes a year (verify_country_data: "grass is in
-    # megatonnes"); the world constant is documented as "tons dry caloric monthly". 1 dry caloric ton = 4e6 kcal.
-    per_unit = 4e6 / 1e9 if ci["COUNTRY_CODE"] == "WOR" else 1e6 * 4e6 / 1e9
+    # documented units: country rows carry megatonnes a year (verify_country_data: "grass is in megatonnes",
+    # at most 20 000 a year); the world constant is documented as "tons dry caloric monthly" (4206e6 / 12).
+    # A monthly figure above 20 000 cannot be megatonnes, so it is read as tons. 1 dry caloric ton = 4e6 kcal.
+    per_unit = 4e6 / 1e9 if ci["HUMAN_INEDIBLE_FEED_BASELINE_MONTHLY"] > 20000 else 1e6 * 4e6 / 1e9
     base = ci["HUMAN_INEDIBLE_FEED_BASELINE_MONTHLY"] * per_unit
     ref["grass"] = np.array([ci["RATIO_GRASSES_YEAR%d" % data_year(m)] * base for m in range(n)], dtype=float)
     # the same with the code's block rule (last simulated year takes the 4 left-over months), for attribution only
@@ -401,8 +405,8 @@ def check_job(r, V):
             wit = lambda: _wit(r, month=i, code=float(g[i]), reference=float(ref["grass"][i]), ratio=float(g[i] / ref["grass"][i]) if ref["grass"][i] else None,
                                code_tail=core.jsonable(g[-6:]), reference_tail=core.jsonable(ref["grass"][-6:]))
             V.check("reference", f == 1.0, {"series": "grass", "kind": "unit_factor_1e6", "scale": _scale(r)}, wit,
-                    "grass is 1e6 times the documented function of the inputs (documented unit of the baseline: %s)"
-                    % ("tons a month" if _scale(r) == "global" else "megatonnes a year"))
+                    "grass is 1e6 times the documented function of the inputs (the baseline constant is given in tons "
+                    "but converted as if it were million tons)")
             V.check("reference", lab == "calendar", {"series": "grass", "kind": "last_simulated_year_extended_instead_of_next_year", "horizon": horizon}, wit,
                     "grass: the last 4 months of the horizon use the ratio of the last simulated year, not of the model year they belong to")
     for name in ("feed_demand", "biofuels_demand", "seaweed_built_area"):
